@@ -6,13 +6,28 @@ import sys
 sys.path.insert(0, os.path.join(os.path.dirname(os.path.abspath(__file__)), ".."))
 from gen import ghw_writer  # noqa: E402
 
+LONG = ("a_very_long_hierarchical_identifier_prefix_shared_between_neighbouring_entries_of_the_string_table_" * 12)
+
+
+def pick_name(rng, huge=False):
+    """mostly short names; sometimes one that shares 32.. / 1024.. leading characters with its neighbour in the string table
+    (`huge`: beyond the 511 bytes an FST hierarchy entry may have — GHW-only designs)"""
+    r = rng.random()
+    if r < 0.05:
+        return LONG[:rng.choice([31, 32, 33, 40, 63, 64, 65, 100, 289])] + rng.choice(NAMES)
+    if r < 0.057 and huge:
+        return LONG[:rng.choice([1023, 1024, 1025, 1100])] + rng.choice(NAMES)
+    return rng.choice(NAMES)
+
+
 NAMES = ["clk", "rst", "data", "q", "cnt", "state", "a", "b", "sel", "x_1", "bus_in", "mem", "r", "v", "top", "u0", "u1", "dut", "gen", "blk"]
 ENUM_LITS = ["idle", "run", "stop", "s0", "s1", "s2", "wait_ack", "done", "err", "a", "b", "c", "'a'", "'b'", "'x'", "false", "true", "red", "green"]
 
 
 class Gen:
-    def __init__(self, rng, allow_alias=True, allow_structs=True, max_width=70, alias_prob=0.15):
+    def __init__(self, rng, allow_alias=True, allow_structs=True, max_width=70, alias_prob=0.15, huge_names=False):
         self.rng = rng
+        self.huge_names = huge_names
         self.natoms = 0
         self.kinds = {}            # atom -> 'nine' | 'bit' | ('enum', n) | 'int' | 'real'
         self.vecs = []             # (type, ids) of declared vectors / scalars for aliasing
@@ -119,7 +134,7 @@ class Gen:
     def rand_var(self):
         rng = self.rng
         pk = rng.choice([16, 16, 16, 17, 18, 19, 20, 21])
-        name = rng.choice(NAMES)
+        name = pick_name(rng, self.huge_names)
         if self.allow_alias and self.vecs and rng.random() < self.alias_prob:
             t, ids = rng.choice(self.vecs)
             if t[0] in ("LV", "BV") and len(ids) >= 2 and rng.random() < 0.6:
@@ -194,6 +209,7 @@ class Gen:
 
 
 def gen_case(rng, nitems=None, nsteps=None, **kw):
+    kw.setdefault("huge_names", True)
     g = Gen(rng, **kw)
     items = g.rand_items(nitems if nitems is not None else rng.choice([1, 3, 6, 10]))
     snap, steps = g.rand_wave(nsteps if nsteps is not None else rng.choice([0, 2, 6, 15]))
